@@ -1428,8 +1428,12 @@ def _sympy_to_BlockSeries(
 
     """
     if not symbols:
-        # All symbols are perturbative; sort them to have a reproducible order.
-        symbols = tuple(sorted(operator.free_symbols, key=lambda x: x.name))
+        # All symbols are perturbative, except for the labels of operators, which
+        # sympy also counts as free symbols; sort them to have a reproducible order.
+        labels = set().union(*(op.free_symbols for op in operator.atoms(Operator)))
+        symbols = tuple(
+            sorted(operator.free_symbols - labels, key=lambda x: x.name)
+        )
     if any(n not in operator.free_symbols for n in symbols):
         raise ValueError("Not all perturbative parameters are in `hamiltonian`.")
 
